@@ -389,8 +389,29 @@ func (c *Ctx) ruleOnceNotAroundPanic(rule string) {
 			if cal == nil || cal.Name() != "Do" || cal.Pkg() == nil || cal.Pkg().Path() != "sync" {
 				return true
 			}
-			fl, ok := call.Args[0].(*ast.FuncLit)
-			if !ok {
+			// the once-only code: a closure, or a named function of the module handed over as a value
+			var onceBody *ast.BlockStmt
+			var onceFn *Fn
+			fl, isLit := call.Args[0].(*ast.FuncLit)
+			if isLit {
+				onceBody = fl.Body
+			} else {
+				var id *ast.Ident
+				switch x := ast.Unparen(call.Args[0]).(type) {
+				case *ast.Ident:
+					id = x
+				case *ast.SelectorExpr:
+					id = x.Sel
+				}
+				if id != nil {
+					if g, ok := pk.TypesInfo.Uses[id].(*types.Func); ok {
+						if onceFn = c.fnOf(g); onceFn != nil {
+							onceBody = onceFn.Decl.Body
+						}
+					}
+				}
+			}
+			if onceBody == nil {
 				return true
 			}
 			n++
@@ -398,7 +419,7 @@ func (c *Ctx) ruleOnceNotAroundPanic(rule string) {
 			key := fmt.Sprintf("%s | %s.Do", f.Name(), exprString(sel.X))
 			// own recover
 			recovers := false
-			ast.Inspect(fl.Body, func(m ast.Node) bool {
+			ast.Inspect(onceBody, func(m ast.Node) bool {
 				if ds, ok := m.(*ast.DeferStmt); ok {
 					ast.Inspect(ds.Call, func(k ast.Node) bool {
 						if id, ok := k.(*ast.Ident); ok && id.Name == "recover" {
@@ -415,7 +436,11 @@ func (c *Ctx) ruleOnceNotAroundPanic(rule string) {
 			}
 			// module functions reachable from the closure
 			var roots []*ssa.Function
-			if sf := c.P.SSAFunc(f.Obj); sf != nil {
+			if onceFn != nil {
+				if sf := c.P.SSAFunc(onceFn.Obj); sf != nil {
+					roots = append(roots, sf)
+				}
+			} else if sf := c.P.SSAFunc(f.Obj); sf != nil {
 				for _, an := range sf.AnonFuncs {
 					if an.Pos() == fl.Pos() || (an.Syntax() != nil && an.Syntax().Pos() == fl.Pos()) {
 						roots = append(roots, an)
@@ -459,9 +484,13 @@ func (c *Ctx) ruleOnceNotAroundPanic(rule string) {
 					return true
 				})
 			}
-			scan(fl.Body, f)
+			scanIn := f
+			if onceFn != nil {
+				scanIn = onceFn
+			}
+			scan(onceBody, scanIn)
 			for _, g := range c.libFns() {
-				if reach[g.Obj] && g.Obj != f.Obj {
+				if reach[g.Obj] && g.Obj != scanIn.Obj {
 					scan(g.Decl.Body, g)
 				}
 			}
